@@ -2,12 +2,15 @@
 package main
 
 import (
+	"bufio"
+	"bytes"
 	"encoding/json"
 	"fmt"
 	"io"
 	"os"
 	"reflect"
 	"strings"
+	"testing/iotest"
 	"time"
 
 	"github.com/alecthomas/participle/v2"
@@ -307,6 +310,19 @@ func runJob(w *hx.Worker, j job, maxLen int, only string) {
 						return v, err
 					}},
 					{"ParseString+Trace", func() (*any, error) { return p.ParseString(fn, in, popt, participle.Trace(io.Discard)) }},
+					// readers that are not at their beginning / not plain: only the remaining text is the input
+					{"Parse(strings.Reader after Seek)", func() (*any, error) {
+						r := strings.NewReader("zz" + in)
+						_, _ = r.Seek(2, io.SeekStart)
+						return p.Parse(fn, r, popt)
+					}},
+					{"Parse(bytes.Reader after ReadByte)", func() (*any, error) {
+						r := bytes.NewReader([]byte("z" + in))
+						_, _ = r.ReadByte()
+						return p.Parse(fn, r, popt)
+					}},
+					{"Parse(bufio.Reader)", func() (*any, error) { return p.Parse(fn, bufio.NewReaderSize(strings.NewReader(in), 16), popt) }},
+					{"Parse(one byte at a time)", func() (*any, error) { return p.Parse(fn, iotest.OneByteReader(strings.NewReader(in)), popt) }},
 				}
 				var results []result
 				var recorded [][]lexer.Token
@@ -471,6 +487,113 @@ func mustLex(k lexKind, fn, in string) lexer.Lexer {
 	return lx
 }
 
+// ---- a root that implements Parseable: ParseFromLexer must still hand the lexer back positioned
+// after what the root consumed
+
+type PRoot struct {
+	Words []string
+}
+
+func (r *PRoot) Parse(lex *lexer.PeekingLexer) error {
+	for i := 0; i < 2; i++ {
+		t := lex.Peek()
+		if t.EOF() {
+			return participle.NextMatch
+		}
+		r.Words = append(r.Words, t.Value)
+		lex.Next()
+	}
+	return nil
+}
+
+type PPlain struct {
+	A string `@Ident`
+	B string `@Ident`
+}
+
+func runSpecial(w *hx.Worker) {
+	st := statefulDef()
+	space := st.Symbols()["Space"]
+	pr, err1 := participle.Build[PRoot](participle.Lexer(st), participle.Elide("Space"))
+	pp, err2 := participle.Build[PPlain](participle.Lexer(st), participle.Elide("Space"))
+	if err1 != nil || err2 != nil {
+		w.Violate(hx.Violation{Key: "special build", Class: "build-failed", Detail: map[string]any{"e": fmt.Sprint(err1, err2)}})
+		return
+	}
+	for _, in := range lexfam.Inputs([]string{"a", "b", " ", ";"}, 5) {
+		w.Count("evaluations", 1)
+		mk := func() *lexer.PeekingLexer {
+			lx, _ := st.Lex("", strings.NewReader(in))
+			pl, err := lexer.Upgrade(lx, space)
+			if err != nil {
+				return nil
+			}
+			return pl
+		}
+		l1, l2 := mk(), mk()
+		if l1 == nil {
+			continue
+		}
+		var v1 *PRoot
+		var v2 *PPlain
+		var e1, e2 error
+		pan, msg := hx.Guard(func() {
+			v1, e1 = pr.ParseFromLexer(l1, participle.AllowTrailing(true))
+			v2, e2 = pp.ParseFromLexer(l2, participle.AllowTrailing(true))
+		})
+		key := fmt.Sprintf("parseable-root :: in=%q", in)
+		if pan {
+			w.Violate(hx.Violation{Key: key, Class: "panic", Detail: map[string]any{"panic": msg}})
+			continue
+		}
+		if (e1 == nil) != (e2 == nil) {
+			// a Parseable root that consumes two identifiers and the plain two-identifier grammar accept the same inputs
+			// only when both tokens are Ident; compare positions only when both succeed
+			continue
+		}
+		if e1 == nil {
+			if fmt.Sprint(v1.Words) != fmt.Sprint([]string{v2.A, v2.B}) {
+				continue
+			}
+			if *l1.Peek() != *l2.Peek() || l1.RawCursor() != l2.RawCursor() || l1.Cursor() != l2.Cursor() {
+				w.Violate(hx.Violation{Key: key, Class: "lexer-position-after-ParseFromLexer", Detail: map[string]any{"parseable_root_peek": fmt.Sprintf("%#v raw=%d", *l1.Peek(), l1.RawCursor()), "struct_root_peek": fmt.Sprintf("%#v raw=%d", *l2.Peek(), l2.RawCursor())}})
+				continue
+			}
+			w.DistinctS("pr" + in)
+		}
+	}
+	// deep nesting: Trace must change nothing, however deep the grammar recursion goes
+	u := &g.Prod{Name: "U0", UnionSlot: 0, Members: []*g.Prod{nil}}
+	s := gfam.AssignOwn("R", g.Alt(g.Seq(g.Lit("a"), g.Sub(-1, u), g.Lit("b")), gfam.CapMark(g.Lit(";"))))
+	u.Members = []*g.Prod{s}
+	tc := g.TypeCache{}
+	rv := reflect.New(tc.GoType(s)).Elem().Interface()
+	p, err := participle.Build[any](participle.Lexer(st), participle.Elide("Space"), participle.Union[any](rv), participle.Union[g.U0](rv))
+	if err != nil {
+		w.Violate(hx.Violation{Key: "deep build", Class: "build-failed", Detail: map[string]any{"e": err.Error()}})
+		return
+	}
+	for m := 1; m <= 96; m++ {
+		for _, tail := range []string{"", "x"} {
+			in := strings.Repeat("a ", m) + ";" + strings.Repeat(" b", m) + tail
+			w.Count("evaluations", 1)
+			a := capture(func() (*any, error) { return p.ParseString("f", in) })
+			b := capture(func() (*any, error) { return p.ParseString("f", in, participle.Trace(io.Discard)) })
+			if a != b {
+				w.Violate(hx.Violation{Key: fmt.Sprintf("deep-trace :: nesting=%d tail=%q", m, tail), Class: "entry-points-disagree:ParseString+Trace", Detail: map[string]any{"without": a.String()[:min(300, len(a.String()))], "with_trace": b.String()[:min(300, len(b.String()))]}})
+				break
+			}
+		}
+	}
+}
+
+func min(a, b int) int {
+	if a < b {
+		return a
+	}
+	return b
+}
+
 func plan(c *hx.Ctx) *hx.Plan {
 	js := jobs(c.Quick())
 	maxLen := 4
@@ -491,6 +614,10 @@ func plan(c *hx.Ctx) *hx.Plan {
 
 func replay(c *hx.Ctx, key string) []hx.Violation {
 	w := hx.NewReplayWorker()
+	if strings.HasPrefix(key, "parseable-root") || strings.HasPrefix(key, "deep-") {
+		runSpecial(w)
+		return w.Violations()
+	}
 	for _, j := range jobs(false) {
 		desc := fmt.Sprintf("lexer=%s opts=%s lookahead=%d grammar=%s", j.k.name, j.os.name, j.lk, j.gr.Source())
 		if strings.HasPrefix(key, desc+" :: ") {
